@@ -170,6 +170,9 @@ pub fn install_dual_role() -> OpSet {
     ops.infix.insert("!".into(), InfixInfo { prec: 105, left: true, setter: false });
     expression_engine::register_infix_op("++", 115, InfixOpType::CALC, InfixOpAssociativity::LEFT, Arc::new(|a, _| Ok(a)));
     ops.infix.insert("++".into(), InfixInfo { prec: 115, left: true, setter: false });
+    // a word operator that differs from the keyword `not` only in case
+    expression_engine::register_infix_op("NOT", 105, InfixOpType::CALC, InfixOpAssociativity::LEFT, Arc::new(|a, _| Ok(a)));
+    ops.infix.insert("NOT".into(), InfixInfo { prec: 105, left: true, setter: false });
     // (not a dual role, but it lives in the same fresh process: an operator whose name is one
     // multi-byte character)
     expression_engine::register_infix_op("\u{2264}", 60, InfixOpType::CALC, InfixOpAssociativity::LEFT, Arc::new(|a, _| Ok(a)));
@@ -177,7 +180,7 @@ pub fn install_dual_role() -> OpSet {
     ops
 }
 
-pub const DUAL_TOKENS: &[&str] = &["1", "x", "%", "*", "!", "++", "(", ")", "+", "-", "[", "]"];
+pub const DUAL_TOKENS: &[&str] = &["1", "x", "%", "*", "!", "++", "(", ")", "+", "-", "[", "]", "NOT", "not"];
 
 pub fn programs(tier: Tier) -> Vec<Ast> {
     program_trees(tier.pick(0, 1))
